@@ -17,7 +17,7 @@ m = {
  "setup_cmd": "./check setup",
  "hooks": {
   "guard": "raqote_verif",
-  "enable": "rustc --cfg raqote_verif, set for the whole harness build in /verif/harness/.cargo/config.toml (path dependency on /repo, rebuilt by every check)",
+  "enable": "rustc --cfg raqote_verif, set for the whole harness build in /verif/harness/.cargo/config.toml (path dependency on /repo, rebuilt by every check); the API call recorder (src/verif_trace.rs) additionally needs the environment variable RAQOTE_VERIF_TRACE=<dir> and is used by running /repo's own unit tests with RUSTFLAGS='--cfg raqote_verif' (vlib/testtrace.py)",
   "baseline_off_cmd": "cd /repo && cargo test --workspace --no-fail-fast --offline",
   "source_commits": hooks_commits,
   "add_only": True,
